@@ -394,12 +394,16 @@ def _info_record(i):
     return Record("OpcodeInfo", {"name": i.name, "code": i.code, "arg": arg, "proto": i.proto})
 
 
+# decompressing readers over in-memory data (a world builds them from bytes it made up): streams like any other
+_MEMORY_STREAMS = (__import__("gzip").GzipFile, __import__("zipfile").ZipExtFile)
+
+
 def _genops(stream):
     import io
 
     if isinstance(stream, (bytes, bytearray)):
         stream = io.BytesIO(bytes(stream))
-    if not isinstance(stream, (io.BytesIO, io.BufferedReader)):
+    if not isinstance(stream, (io.BytesIO, io.BufferedReader) + _MEMORY_STREAMS):
         raise Unsupported("genops over something that is not an in-memory stream")
     return _GenopsIter(stream)
 
@@ -442,6 +446,9 @@ SPEC_CALLABLES = {
 import pickle as _pickle_spec  # constants of the reader's side only; nothing is unpickled
 
 SPEC_CONSTANTS = {"sys.builtin_module_names": __import__("sys").builtin_module_names, "sys.stdlib_module_names": __import__("sys").stdlib_module_names, "pickle.HIGHEST_PROTOCOL": _pickle_spec.HIGHEST_PROTOCOL, "pickle.DEFAULT_PROTOCOL": _pickle_spec.DEFAULT_PROTOCOL, "sys.maxsize": __import__("sys").maxsize, "sys.byteorder": __import__("sys").byteorder}
+# pickletools' documented integer constants (argument-size markers) and pickle's opcode byte constants
+SPEC_CONSTANTS.update({f"pickletools.{k}": v for k, v in vars(__import__("pickletools")).items() if k.isupper() and isinstance(v, int)})
+SPEC_CONSTANTS.update({f"pickle.{k}": v for k, v in vars(_pickle_spec).items() if k.isupper() and isinstance(v, bytes) and len(v) == 1})
 _BUILTIN_SPECS = {
     "compile": _Spec(_compile, "compile"),
     "repr": _Spec(repr, "repr"), "ascii": _Spec(ascii, "ascii"),
@@ -757,6 +764,9 @@ class ObjEval:
                 return _pure_attr(*q.rsplit(".", 1))
             if q.startswith("typing.") or q in ("abc.ABC", "abc.abstractmethod", "enum.Enum"):
                 return Record("typing", {"name": q})
+            sc = _stdlib_class(q)
+            if sc is not None:
+                return sc
             raise Unsupported(f"imported name {name} -> {q}")
         return _MISSING
 
@@ -1003,7 +1013,7 @@ class OEvaluator(Evaluator):
             if attr in ("size", "format"):
                 return getattr(v, attr)
             raise Unsupported(f"attribute .{attr} of a struct.Struct")
-        if isinstance(v, (str, bytes, bytearray, int, list, dict, tuple, float, set, frozenset, __import__("io").BytesIO, __import__("io").StringIO, __import__("io").BufferedReader, __import__("re").Pattern, __import__("re").Match)) and not isinstance(v, bool):
+        if isinstance(v, (str, bytes, bytearray, int, list, dict, tuple, float, set, frozenset, __import__("io").BytesIO, __import__("io").StringIO, __import__("io").BufferedReader, __import__("re").Pattern, __import__("re").Match) + _MEMORY_STREAMS) and not isinstance(v, bool):
             return _PyMethod(v, attr)
         raise Unsupported(f"attribute .{attr} of a {type(v).__name__}")
 
@@ -1413,6 +1423,43 @@ class _PyType:
     def __repr__(self):
         return f"<class '{self.t.__name__}'>"
 
+    # a type is one object however often `type(x)` names it: equal, and usable as a dictionary key
+    def __eq__(self, other):
+        return isinstance(other, _PyType) and other.t is self.t
+
+    def __hash__(self):
+        return hash(self.t)
+
+
+class _StdlibClass(_PyType):
+    """A class of the standard library named by the repository (`from gzip import GzipFile`): good for isinstance / issubclass
+    tests and for being compared; it cannot be called or inspected (nothing of it runs on the world's behalf)."""
+
+    def __call__(self, *args, **kw):
+        raise Unsupported(f"call of the standard-library class {self.t.__module__}.{self.t.__name__}")
+
+    def sa_attr(self, name):
+        if name in ("__name__", "__qualname__"):
+            return self.t.__name__
+        if name == "__module__":
+            return self.t.__module__
+        raise Unsupported(f"attribute .{name} of the standard-library class {self.t.__name__}")
+
+
+def _stdlib_class(q: str):
+    """The class a dotted standard-library name denotes, or None (the module is imported on the specification's side only)."""
+    import importlib
+    import sys as _sys
+
+    mod, _, name = q.rpartition(".")
+    if not mod or mod.split(".")[0] not in _sys.stdlib_module_names or mod.split(".")[0] in ("antigravity", "this", "idlelib", "turtle", "turtledemo", "tkinter"):
+        return None
+    try:
+        v = getattr(importlib.import_module(mod), name, None)
+    except Exception:
+        return None
+    return _StdlibClass(v) if isinstance(v, type) else None
+
 
 class _ExcType:
     sa_callable = True
@@ -1438,6 +1485,8 @@ _PY_METHODS = {
     bytearray: {"extend", "append", "decode", "startswith", "endswith", "hex", "find", "count", "copy", "clear", "pop", "insert", "join", "replace"},
     __import__("io").StringIO: {"write", "read", "getvalue", "close", "seek", "tell", "readline", "flush"},
     __import__("io").BufferedReader: {"read", "seek", "tell", "seekable", "readable", "readline", "peek", "close", "read1", "readinto"},
+    __import__("gzip").GzipFile: {"read", "seek", "tell", "seekable", "readable", "readline", "peek", "close", "read1"},
+    __import__("zipfile").ZipExtFile: {"read", "seek", "tell", "seekable", "readable", "readline", "peek", "close", "read1"},
     __import__("io").BytesIO: {"read", "seek", "tell", "seekable", "readable", "readline", "getvalue", "write", "close", "peek", "getbuffer", "truncate"},
     set: {"add", "discard", "update", "union", "copy", "issubset", "issuperset", "intersection", "difference", "remove"},
     frozenset: {"union", "issubset", "issuperset", "intersection", "difference"},
